@@ -238,6 +238,13 @@ def malformed(n):
     for p in PREFIXES:
         for body in ("", "abc", "a b", "\\n", "'"):
             yield ("M7.string-eof", "UNEXPECTED_EOF_STR", p + '"' + body, "")
+        # the last characters are an *escaped* quote: the literal is still open
+        for body in ('\\"', 'abc\\"', '\\\\\\"', '\\"\\"'):
+            yield ("M7.string-eof-escaped-quote", "UNEXPECTED_EOF_STR", p + '"' + body, "")
+    for p in PREFIXES:
+        for body in ("\\'", "a\\'"):
+            yield ("M6.char-eof-escaped-quote", "UNEXPECTED_EOF_CHR", p + "'" + body, "")
+            yield ("M6.char-eol-escaped-quote", "UNEXPECTED_EOL_CHR", p + "'" + body, "\n")
     for body in ("", " abc", "*", "/", " a\nb", "* /"):
         yield ("M7.comment-eof", "UNEXPECTED_EOF_MC", "/*" + body, "")
     # M8 bad escapes (Notice level)
